@@ -22,7 +22,8 @@ import gen_rf678 as g
 PREFIX = "C7"
 POLICIES = ("patch", "recreate", "never")
 SITUATIONS = ("absent", "presentMatching", "presentDrifted", "presentNoOwnerRef", "absentConflict",
-              "presentDriftedRejected")
+              "presentDriftedRejected", "presentVanished")
+REJECTED = ("presentDriftedRejected", "presentVanished")
 REJECT_CODES = (422, 409, 500)     # what the server answers the mutating call with in `presentDriftedRejected`
 VF_SPECS = ({"return": {"spec": {"fromFunction": 1}}}, {"return": {"spec": {"fromFunction": 2}}})
 ABSENT = ("absent", "absentConflict")     # absent as far as the load can tell
@@ -131,7 +132,7 @@ def seed_objects(cell: dict, variant: str, idx: int, competitor: bool = False) -
         md["ownerReferences"] = refs
     live = {"apiVersion": g.API_VERSION, "kind": kind, "metadata": md, "spec": copy.deepcopy(TARGET_SPEC),
             "status": {"phase": "Active"}}
-    if sit in ("presentDrifted", "presentDriftedRejected"):
+    if sit in ("presentDrifted", "presentDriftedRejected", "presentVanished"):
         where = idx % 3
         if where == 0:
             live["spec"]["a"] = 2
@@ -152,6 +153,14 @@ def observe(cell: dict, variant: str, idx: int, extra: dict | None = None) -> di
 
         def configure(c):      # call 0 is the load, call 1 the one mutation the mode allows
             c.faults[1] = code
+    if cell["sit"] == "presentVanished":
+        # present (and drifted) at the load; another deleter removes it before our mutating call arrives: 404
+        def configure(c):
+            def gone(i, method, key):
+                if method in ("PATCH", "DELETE"):
+                    c.objects.pop(key, None)
+                return 0
+            c.latency = gone
     if cell["sit"] == "absentConflict":
         # a competitor creates the object after our load and before our POST arrives: the server answers 409
         theirs = seed_objects(cell, variant, idx, competitor=True)
@@ -189,8 +198,9 @@ def oracle(cell: dict, got: dict) -> str | None:
     dm = cell["deleteIfExists"]
     if a.startswith("multiple") or a == "not-prepared":
         return f"unexpected API traffic: {a}"
-    rejected = cell["sit"] == "presentDriftedRejected"
-    if oc == "raised" and not (rejected and a in ("patch", "delete") and "ServerError" in got["outcome"]["what"]):
+    rejected = cell["sit"] in REJECTED
+    if oc == "raised" and not (rejected and a in ("patch", "delete") and
+                               got["outcome"]["what"].startswith(("ServerError", "NotFoundError"))):
         return f"reconcile raised: {got['outcome']['what']}"
     if rejected and a in ("patch", "delete") and oc != "raised":
         return f"the server rejected the {a} but the reconcile reported {oc} (log {got.get('log')})"
@@ -252,7 +262,7 @@ def run(tier: str) -> int:
         "Lean 4.33.0 kernel; axioms of every theorem ⊆ {propext, Classical.choice, Quot.sound}",
         "model lean/Koreo/ResourceFn.lean (`decide`, `reconcile`) hand-transcribed from reconcile_resource_function / "
         "reconcile_krm_resource; flag and delay defaults regenerated by harness/extractors/RfDefaults.py",
-        "exhaustive run of all 4608 cells (7680 runs, two spec variants where parsing matters) through the real prepare + reconcile against "
+        "exhaustive run of all 5376 cells (8448 runs, two spec variants where parsing matters) through the real prepare + reconcile against "
         "harness/cluster.py (in-memory API with merge-patch and a request log)",
         "kr8s 0.20.7 APIObject (create/patch/delete -> call_api), celpy for the precondition and apiConfig expressions, "
         "the comparator validate_match (its answer is an input of the table)",
@@ -270,6 +280,9 @@ def run(tier: str) -> int:
     all_cells = list(cells())
     work = []
     for idx, cell in enumerate(all_cells):
+        if cell["sit"] == "presentVanished":
+            work.append((idx, cell, ("explicit", "omitted")[idx % 2], {}))
+            continue
         if cell["sit"] == "presentDriftedRejected":
             # every cell with 422 (spec variant alternating); 409 and 500 on the plural-given, no-create-overlay part
             v = ("explicit", "omitted")[idx % 2]
@@ -339,7 +352,8 @@ def run(tier: str) -> int:
         rule="exhaustive: all 2^5 flag combinations x 3 update policies x 2 precondition results x create.overlay "
              "written or not x apiConfig.plural given or to be discovered (cold cache, a kind of its own) x 5 cluster "
              "situations (absent, matching, drifted, no owner reference, absent at the load with a competitor creating "
-             "the object before our POST: 409, drifted with the server rejecting the mutating call) = 4608 cells, each "
+             "the object before our POST: 409, drifted with the server rejecting the mutating call, present at the load "
+             "but gone when the mutating call arrives: 404) = 5376 cells, each "
              "as a real prepared ResourceFunction (spec variants: every key explicit / every default-valued key "
              "omitted — both for absent, matching, drifted; alternating for the other situations), reconciled once "
              "against a freshly seeded cluster; the rejected-mutation cells run in one spec "
